@@ -129,30 +129,50 @@ struct SentDs {
     cls: String,
     pid: String,
     pixels: Vec<u8>,
+    /// the whole data set as sent (in the negotiated transfer syntax): a stored file holds this
+    /// request's data set iff its data set re-encodes to exactly these bytes
+    evrle: Vec<u8>,
+    /// byte length of the first three elements in the transfer syntax used (an element boundary)
+    head_len: usize,
 }
 
-fn make_ds(inst: &str, pid: &str, seed: u64) -> (InMemDicomObject, SentDs) {
+fn encode(obj: &InMemDicomObject, ts_uid: &str) -> Vec<u8> {
+    let ts = TransferSyntaxRegistry.get(ts_uid).unwrap();
+    let mut v = Vec::new();
+    obj.write_dataset_with_ts(&mut v, ts).expect("encode");
+    v
+}
+
+fn make_ds(inst: &str, pid: &str, seed: u64, tsu: &str) -> (InMemDicomObject, SentDs) {
     let mut rng = Rng::new(seed);
     let n = 1500 + 2 * rng.below(800) as usize;
     let px = rng.bytes(n);
     let cls = uids::SECONDARY_CAPTURE_IMAGE_STORAGE;
-    let obj = InMemDicomObject::from_element_iter([
+    let mut elems = vec![
         DataElement::new(tags::SOP_CLASS_UID, VR::UI, cls),
         DataElement::new(tags::SOP_INSTANCE_UID, VR::UI, inst),
         DataElement::new(tags::PATIENT_NAME, VR::PN, "Doe^Jane"),
         DataElement::new(tags::PATIENT_ID, VR::LO, pid),
         DataElement::new(tags::ROWS, VR::US, PrimitiveValue::from(1u16)),
         DataElement::new(tags::PIXEL_DATA, VR::OB, PrimitiveValue::from(px.clone())),
-    ]);
-    (
-        obj,
-        SentDs {
-            inst: inst.to_string(),
-            cls: cls.to_string(),
-            pid: pid.to_string(),
-            pixels: px,
-        },
-    )
+    ];
+    // every other data set carries attributes the others lack, so that bytes left over from one
+    // request cannot hide inside the next one
+    if seed % 2 == 1 {
+        elems.push(DataElement::new(tags::IMAGE_TYPE, VR::CS, "ORIGINAL"));
+        elems.push(DataElement::new(tags::INSTANCE_CREATION_DATE, VR::DA, "20200102"));
+    }
+    let obj = InMemDicomObject::from_element_iter(elems);
+    let head = InMemDicomObject::from_element_iter(obj.iter().take(3).cloned());
+    let sd = SentDs {
+        inst: inst.to_string(),
+        cls: cls.to_string(),
+        pid: pid.to_string(),
+        pixels: px,
+        evrle: encode(&obj, tsu),
+        head_len: encode(&head, tsu).len(),
+    };
+    (obj, sd)
 }
 
 /// Project a DIMSE response received from the tool: one command PDV, decoded as Implicit VR LE.
@@ -259,7 +279,7 @@ fn main() {
                             }
                         }
                         let inst = format!("1.2.826.0.1.3680043.9.{}.{}", 7000 + mi, counter);
-                        let (obj, sd) = make_ds(&inst, &format!("P{counter}"), seed ^ counter);
+                        let (obj, sd) = make_ds(&inst, &format!("P{counter}"), counter, ts_uid(ts));
                         let mut bytes = Vec::new();
                         obj.write_dataset_with_ts(&mut bytes, tsx).expect("encode ds");
                         // number of fragments = 1 + number of "part" ops before "last"
@@ -272,11 +292,19 @@ fn main() {
                             j += 1;
                         }
                         let nfr = parts + 1;
-                        let chunk = (bytes.len() / nfr).max(2) & !1usize;
+                        // the first fragment ends at an element boundary (after three elements), the rest is
+                        // cut evenly
                         frags.clear();
                         let mut off = 0;
                         for k in 0..nfr {
-                            let end = if k + 1 == nfr { bytes.len() } else { (off + chunk).min(bytes.len()) };
+                            let end = if k + 1 == nfr {
+                                bytes.len()
+                            } else if k == 0 {
+                                sd.head_len.min(bytes.len())
+                            } else {
+                                let chunk = ((bytes.len() - off) / (nfr - k)).max(2) & !1usize;
+                                (off + chunk).min(bytes.len())
+                            };
                             frags.push(bytes[off..end].to_vec());
                             off = end;
                         }
@@ -390,8 +418,11 @@ fn main() {
                     let inst = fo.element(tags::SOP_INSTANCE_UID).ok().and_then(|e| e.to_str().ok().map(|s| s.trim_end_matches(['\0', ' ']).to_string()));
                     let pid = fo.element(tags::PATIENT_ID).ok().and_then(|e| e.to_str().ok().map(|s| s.trim_end().to_string()));
                     let px = fo.element(tags::PIXEL_DATA).ok().and_then(|e| e.to_bytes().ok().map(|b| b.to_vec()));
+                    let whole = catch(|| encode(&fo, ts_uid(ts))).unwrap_or_default();
                     for (k, s) in sent.iter().enumerate() {
-                        if Some(&s.inst) == inst.as_ref() && Some(&s.pid) == pid.as_ref() && px.as_deref() == Some(&s.pixels[..]) {
+                        if Some(&s.inst) == inst.as_ref() && Some(&s.pid) == pid.as_ref() && px.as_deref() == Some(&s.pixels[..])
+                            && whole == s.evrle
+                        {
                             ev["ds"] = json!(k + 1);
                         }
                     }
